@@ -19,9 +19,9 @@ COMPONENTS = {
 }
 
 TIERS = {
-    "C19": {"quick": {"runs": 4000, "det": 24, "fid": 0, "sweep": False},
+    "C19": {"quick": {"runs": 4000, "det": 24, "fid": 32, "sweep": False},
             "thorough": {"runs": 150000, "det": 512, "fid": 200, "sweep": True}},
-    "C18": {"quick": {"runs": 1500, "det": 16, "fid": 0, "sweep": False},
+    "C18": {"quick": {"runs": 1500, "det": 16, "fid": 32, "sweep": False},
             "thorough": {"runs": 60000, "det": 256, "fid": 200, "sweep": True}},
 }
 
